@@ -1,4 +1,5 @@
 import Pokerface.Proofs.CardsOps
+import Pokerface.Proofs.GapsBCards
 import Pokerface.Model.Shuffle
 import Pokerface.Generated.Tables
 /-
@@ -290,3 +291,75 @@ example : applySwaps [1, 2, 3, 4] (fisherYates 4 [2, 0, 1]) = [4, 2, 1, 3] := by
 example : fisherYates 4 [2, 0, 1] = [(3, 2), (2, 0), (1, 1)] := by decide
 
 end Pokerface.C14.Examples
+
+/-! ## "All deck contents": the prefix and count statements without the no-duplicates hypothesis
+
+`WFCards` bundles `deck.Nodup` with the length condition, but only the no-duplicate theorems
+need `Nodup`.  The theorems below quantify over `ReachableL g` (Proofs/GapsBCards.lean): every state
+reached by ANY sequence of operations from a successfully started hand of ANY configuration whose
+deck merely satisfies  `seats·holeCount + 8 ≤ deck.length`  — any deck contents, duplicates
+included, any forced bets.  (`ReachableC g → ReachableL g`: `ReachableC.toL`.) -/
+namespace Pokerface.C14
+open Pokerface Game
+
+/-- **"at all times hole cards, board and burned cards together are exactly the consumed top of
+    the deck"**, for ALL deck contents: the statement of `dealt_is_prefix` under the length
+    hypothesis alone (no `Nodup`). -/
+theorem dealt_is_prefix_any_deck {g : Game} (h : ReachableL g) :
+    g.players.flatMap (·.hole) ++ streetCards g.burned g.board = g.opts.deck.take g.deckPos :=
+  (cinvL_reachable h).core.pref
+
+/-- **"every player receives exactly the configured number of hole cards, one card is burned
+    before the flop, the turn and the river, the board grows to exactly three, four and five
+    cards"**, for ALL deck contents: the statement of `counts` under the length hypothesis alone
+    (no `Nodup`). -/
+theorem counts_any_deck {g : Game} (h : ReachableL g) :
+    (∀ p ∈ g.players, p.hole.length = if g.round = .none then 0 else g.opts.holeCount) ∧
+    g.board.length = (match g.round with | .none => 0 | .preflop => 0 | .flop => 3 | .turn => 4 | .river => 5) ∧
+    g.burned.length = (match g.round with | .none => 0 | .preflop => 0 | .flop => 1 | .turn => 2 | .river => 3) := by
+  have hc := (cinvL_reachable h).core
+  refine ⟨hc.holes, ?_, ?_⟩
+  · rw [hc.board]; cases g.round <;> rfl
+  · rw [hc.burned]; cases g.round <;> rfl
+
+/-- The cursor equals the number of cards dealt, for all deck contents (companion of `cursor`). -/
+theorem cursor_any_deck {g : Game} (h : ReachableL g) :
+    g.deckPos = g.players.length * g.holeCountNow + g.board.length + g.burned.length := by
+  have hc := (cinvL_reachable h).core
+  rw [hc.board, hc.burned]; exact hc.pos
+
+namespace Examples
+
+/-- a deck full of duplicates: 7 copies of 2♠, 7 copies of 3♠, 7 copies of 4♠ -/
+def dupDeck : List Card := (List.range 21).map fun k => (⟨83, k / 7 + 2⟩ : Card)
+
+def dupCfg : Config := { exCfg with opts := { exMeta with deck := dupDeck } }
+
+example : ¬ dupDeck.Nodup := by decide
+
+/-- the hypothesis of the `_any_deck` theorems is satisfiable by a deck that is NOT duplicate-free -/
+theorem dupReach (ops : List Op) : ReachableL ((start dupCfg).1.run ops) :=
+  ⟨dupCfg, ops, by decide, by decide, rfl⟩
+
+set_option maxRecDepth 100000
+
+/-- the instance of `dealt_is_prefix_any_deck` / `counts_any_deck` at the showdown, computed independently -/
+example : ((start dupCfg).1.run opsShowdown).round = .river ∧
+    ((start dupCfg).1.run opsShowdown).dealtCards = dupDeck.take 14 ∧
+    ((start dupCfg).1.run opsShowdown).players.map (·.hole.length) = [2, 2, 2] ∧
+    ((start dupCfg).1.run opsShowdown).board.length = 5 ∧ ((start dupCfg).1.run opsShowdown).burned.length = 3 := by
+  decide
+
+example : ((start dupCfg).1.run opsShowdown).dealtCards = dupDeck.take ((start dupCfg).1.run opsShowdown).deckPos :=
+  dealt_is_prefix_any_deck (dupReach opsShowdown)
+
+end Examples
+
+end Pokerface.C14
+
+section Axioms
+open Pokerface.C14
+#print axioms dealt_is_prefix_any_deck
+#print axioms counts_any_deck
+#print axioms cursor_any_deck
+end Axioms
